@@ -72,7 +72,33 @@ pub fn pattern(len: usize, seed: usize) -> Vec<u8> {
     (0..len).map(|i| (seed + 7 * i + 13 * (i / 256)) as u8).collect()
 }
 
+/// Pseudo-random content (`^len.seed.bits`): a 32-bit linear congruential generator started at
+/// `(seed + 1)·2654435761`; byte i = the top `bits` bits of the state after i + 1 steps.  With
+/// `bits = 8` deflate cannot shrink it (a "stored" stream: 5 bytes longer than the content); smaller
+/// alphabets give Huffman-coded streams of about `bits/8` of the length.  Same definition:
+/// `FsText.noise` (lean/PhysisModel/Base/FsText.lean).
+pub fn noise(len: usize, seed: usize, bits: usize) -> Vec<u8> {
+    let mut s: u32 = (seed as u32).wrapping_add(1).wrapping_mul(2654435761);
+    (0..len)
+        .map(|_| {
+            s = s.wrapping_mul(1664525).wrapping_add(1013904223);
+            ((s >> 24) as u8) >> (8 - bits)
+        })
+        .collect()
+}
+
 pub fn parse_content(s: &str) -> Option<Vec<u8>> {
+    if let Some(r) = s.strip_prefix('^') {
+        let f: Vec<&str> = r.split('.').collect();
+        if f.len() != 3 {
+            return None;
+        }
+        let bits: usize = f[2].parse().ok()?;
+        if !(1..=8).contains(&bits) {
+            return None;
+        }
+        return Some(noise(f[0].parse().ok()?, f[1].parse().ok()?, bits));
+    }
     if let Some(r) = s.strip_prefix('~') {
         let (a, b) = r.split_once('.')?;
         return Some(pattern(a.parse().ok()?, b.parse().ok()?));
@@ -80,6 +106,67 @@ pub fn parse_content(s: &str) -> Option<Vec<u8>> {
     crate::util::unhex(s)
 }
 
+/// bytes that travel as themselves in a path of the line protocol (`FsText.plainByte`)
+fn plain_byte(b: u8) -> bool {
+    b.is_ascii_alphanumeric() || b == b'.' || b == b'_' || b == b'-'
+}
+
+/// Text of a `/`-separated path in the line protocol (`FsText.showPath`): every byte that is not a
+/// letter, digit, `.`, `_`, `-` or a separating `/` is written `%hh` (lower-case hex): space = `%20`.
+pub fn escape_path(p: &str) -> String {
+    let mut o = String::with_capacity(p.len());
+    for &b in p.as_bytes() {
+        if plain_byte(b) || b == b'/' {
+            o.push(b as char);
+        } else {
+            o.push_str(&format!("%{:02x}", b));
+        }
+    }
+    o
+}
+
+/// Inverse of `escape_path` on ASCII paths (`FsText.pathText?`): a byte has exactly one spelling, so
+/// `%41`, `%2F`, `%2f`, `%00`, `%80` and bare punctuation are malformed.
+pub fn unescape_path(s: &str) -> Option<String> {
+    let b = s.as_bytes();
+    let mut o: Vec<u8> = Vec::with_capacity(b.len());
+    let lhex = |c: u8| match c {
+        b'0'..=b'9' => Some(c - b'0'),
+        b'a'..=b'f' => Some(c - b'a' + 10),
+        _ => None,
+    };
+    let mut i = 0;
+    while i < b.len() {
+        if b[i] == b'%' {
+            if i + 2 >= b.len() {
+                return None;
+            }
+            let v = lhex(b[i + 1])? * 16 + lhex(b[i + 2])?;
+            if v == 0 || v >= 128 || v == b'/' || plain_byte(v) {
+                return None;
+            }
+            o.push(v);
+            i += 3;
+        } else if plain_byte(b[i]) || b[i] == b'/' {
+            o.push(b[i]);
+            i += 1;
+        } else {
+            return None;
+        }
+    }
+    String::from_utf8(o).ok()
+}
+
+/// the path of a tree entry: well-formed text, no empty component (`FsText.treePath?`)
+fn tree_path(s: &str) -> Option<String> {
+    let p = unescape_path(s)?;
+    if p.is_empty() || p.split('/').any(|c| c.is_empty()) {
+        return None;
+    }
+    Some(p)
+}
+
+/// entries with their **decoded** paths
 pub fn parse_tree(s: &str) -> Option<Entries> {
     let mut v = Vec::new();
     if s == "-" {
@@ -87,10 +174,10 @@ pub fn parse_tree(s: &str) -> Option<Entries> {
     }
     for e in s.split(';') {
         if let Some(p) = e.strip_suffix('/') {
-            v.push((p.to_string(), None));
+            v.push((tree_path(p)?, None));
         } else {
             let (p, c) = e.split_once(':')?;
-            v.push((p.to_string(), Some(parse_content(c)?)));
+            v.push((tree_path(p)?, Some(parse_content(c)?)));
         }
     }
     Some(v)
@@ -303,16 +390,17 @@ pub fn snapshot(root: &Path) -> Entries {
         .collect()
 }
 
-/// canonical text: sorted by path bytes; directories as `path/` when `with_dirs`; a file of any
+/// canonical text: sorted by path bytes (the bytes, not their escaped text); paths escaped as in
+/// the case grammar (`escape_path`); directories as `path/` when `with_dirs`; a file of any
 /// size (contents are not held in memory: see `show_file`)
 pub fn dump_tree(root: &Path, with_dirs: bool) -> String {
     let parts: Vec<String> = listing(root)
         .iter()
         .filter_map(|(p, is_dir)| {
             if !*is_dir {
-                Some(format!("{}:{}", p, show_file(&root.join(p))))
+                Some(format!("{}:{}", escape_path(p), show_file(&root.join(p))))
             } else if with_dirs {
-                Some(format!("{}/", p))
+                Some(format!("{}/", escape_path(p)))
             } else {
                 None
             }
